@@ -588,7 +588,7 @@ func TestVerifC07(t *testing.T) {
 	if mc.Thorough() {
 		run("len4_4kinds", 4, all, []int{1, 2, 3}, 0)
 		run("len5_3kinds", 5, []int{0, 1, 2}, []int{1, 2, 3}, 0)
-		run("len6_2kinds", 6, two, []int{1, 2, 3}, 0)
+		run("len6_2kinds_cap1_2", 6, two, []int{1, 2}, 0)
 		run("len4_7kinds_incl_fractional", 4, every, []int{1, 2, 3}, 0)
 		run("len5_3kinds_fractional", 5, frac3, []int{1, 2, 3}, 0)
 		run("len4_4kinds_default_capacity", 4, all, []int{0}, 0)
